@@ -729,10 +729,10 @@ class Mon:
                 self.hit("C06:pending-though-ready", "send future %d Pending on a closed channel/handle" % f)
             elif n < self.cap:
                 if n + self.unpub >= self.cap:
-                    self.hit("C06:F-30-unpublished-credit",
+                    self.hit("C03:F-30-pending-with-space",
                              "send future %d Pending with %d/%d buffered: %d drained credits not published (K=%d)" % (f, n, self.cap, self.unpub, self.K))
                 else:
-                    self.hit("C06:pending-though-ready", "send future %d Pending with %d/%d buffered and the window open" % (f, n, self.cap))
+                    self.hit("C03:pending-with-space", "send future %d Pending with %d/%d buffered and the window open" % (f, n, self.cap))
             return
         body = res[1:]
         if not fr["batch"]:
@@ -836,4 +836,27 @@ INFO = {"name": "E-CHANOPS-mpscb",
 ASSUME = ["mpscb: sequential histories only (K2); the chunk table / slot states are abstracted to a FIFO + the window counters (len, unpublished, K); D1 crosses >=3 chunk boundaries and >=2 table laps on the real geometry every run",
           "mpscb: blocking forms are issued only where they complete; recv_timeout only with a zero timeout"]
 
-PROPS = {}
+F = str(FIXFLAGS)
+W_F03 = "s 2 %s ts 0 1 cl 1 tr 1 rt 1 rt 1 dr 0 dr 1" % F
+W_FM1 = "s 2 %s cl 0 tr 1 cn 0 2 ts 2 1 tr 1 dr 0 dr 2 dr 1" % F
+W_F11 = "a 1 %s cn 0 2 ts 0 1 ms 0 0 2 ms 1 2 3 pl 0 0 pl 1 1 tr 1 df 0 ln 0 pl 1 2 df 1 dr 0 dr 2 dr 1" % F
+W_F30 = "a 2 %s ts 0 1 ts 0 2 ms 0 0 3 pl 0 0 tr 1 ln 0 pl 0 0 tr 1 tr 1 df 0 dr 0 dr 1" % F
+
+
+def _p(covers, witness=None):
+    return {"engines": [ENGINE], "witness": witness or {}, "assumptions": ASSUME, "covers": covers, "engine_info": INFO}
+
+
+PROPS = {
+    "C01": _p("mpsc bounded (sync+async handles, K2, all histories): conservation of ids over received/buffered/in-future/handed-back/dropped, no duplicate receive, failed ops leave the queue unchanged, try_send and batch errors hand back exactly the unsent input"),
+    "C02": _p("mpsc bounded (K2): accepted = received ++ buffered ++ destroyed in send order for all histories; receive outputs are the received list; batches keep order; D1 runs cross >=3 chunk boundaries and >=2 chunk-table laps"),
+    "C03": _p("mpsc bounded (K2): len <= cap always; try_send Ok iff not full and not closed (exact, cold path); waiting forms admitted by len+unpublished < cap - 'waits only for space' refuted by the K-cadenced publication (F-30) and proved when nothing is unpublished",
+              {"F-30-mpscb-c03": (ENGINE, W_F30, "C03:F-30-pending-with-space")}),
+    "C04": _p("mpsc bounded (K2): Disconnected only when drained and no open sender; Disconnected final except via clone-of-closed-sender (F-M1, full theorem for the repaired Clone); Closed+value after the receiver is gone; clone isolation; closed handle rejects every form except recv_timeout (F-03, full theorem for the repaired form); close idempotent",
+              {"F-03-mpscb": (ENGINE, W_F03, "C04:F-03-recv-timeout-on-closed"),
+               "F-M1-mpscb": (ENGINE, W_FM1, "C04:F-M1-clone-after-close")}),
+    "C06": _p("mpsc bounded futures/stream (K2): see docs/mpscb.md",
+              {"F-11-mpscb": (ENGINE, W_F11, "C06:F-11-one-wake-per-publication"),
+               "F-30-mpscb": (ENGINE, W_F30, "C06:F-30-unpublished-credit")}),
+    "C09": _p("mpsc bounded (K2): every id in exactly one location in every history; terminal locations only grow; drop events = ids moved to Dropped; after all handles/futures are gone (any teardown order) every id returned or dropped exactly once; D1 compares per-id drop counters incl. recycled chunks"),
+}
